@@ -295,3 +295,46 @@ Proof.
 Qed.
 Lemma list_set_none {A} (l : list A) k x : nth_opt l k = None -> list_set l k x = l.
 Proof. revert k. induction l as [|z l IH]; intros [|k]; cbn; try discriminate; auto. intros H. f_equal. auto. Qed.
+
+(* ---------- symbolic execution with chosen names ---------- *)
+(* head bind is `wl e` / `wlift e`: continue with x and Hx : e = Val x (the failing branch does not exist) *)
+Tactic Notation "wval" hyp(H) ident(x) ident(Hx) :=
+  let E := fresh "E" in let a := fresh "a" in let w1 := fresh "w" in let e := fresh "e" in let Hr := fresh "Hr" in
+  apply wbind_inv in H as [(a & w1 & E & H) | (e & E & Hr)];
+  [ apply wlift_inv in E as (x & Hx & E & ?); injection E as ->; subst w1
+  | apply wlift_inv in E as (? & _ & E & _); discriminate E ].
+(* head bind is `get_node i` *)
+Tactic Notation "wnode" hyp(H) ident(n) ident(Hn) :=
+  let E := fresh "E" in let a := fresh "a" in let w1 := fresh "w" in let e := fresh "e" in let Hr := fresh "Hr" in
+  apply wbind_inv in H as [(a & w1 & E & H) | (e & E & Hr)];
+  [ apply get_node_inv in E as (n & Hn & E & ?); injection E as ->; subst w1
+  | apply get_node_inv in E as (? & _ & E & _); discriminate E ].
+(* head bind is `get_model m` *)
+Tactic Notation "wmodel" hyp(H) ident(x) ident(Hx) :=
+  let E := fresh "E" in let a := fresh "a" in let w1 := fresh "w" in let e := fresh "e" in let Hr := fresh "Hr" in
+  apply wbind_inv in H as [(a & w1 & E & H) | (e & E & Hr)];
+  [ apply get_model_inv in E as (x & Hx & E & ?); injection E as ->; subst w1
+  | apply get_model_inv in E as (? & _ & E & _); discriminate E ].
+(* head bind is `wget` *)
+Tactic Notation "wgetw" hyp(H) :=
+  let E := fresh "E" in let a := fresh "a" in let w1 := fresh "w" in let e := fresh "e" in let Hr := fresh "Hr" in
+  apply wbind_inv in H as [(a & w1 & E & H) | (e & E & Hr)];
+  [ apply wget_inv in E as (E & ?); injection E as ->; subst w1
+  | apply wget_inv in E as (E & _); discriminate E ].
+(* general head bind with a read-only first part: two goals (success with a, E / failure: r and w' substituted) *)
+Tactic Notation "wbind_ro" hyp(H) ident(a) ident(E) :=
+  lazymatch type of H with
+  | wbind ?m ?k ?w = Val (?r, ?w') =>
+    let w1 := fresh "w" in let e := fresh "e" in let Hr := fresh "Hr" in
+    apply wbind_inv in H as [(a & w1 & E & H) | (e & E & Hr)];
+    [ try ro_subst E
+    | first [ discriminate Hr | subst r | (injection Hr as Hr; try subst) | idtac ]; try ro_subst E ]
+  end.
+(* general head bind: the intermediate world is kept (w1) *)
+Tactic Notation "wbind_w" hyp(H) ident(a) ident(w1) ident(E) :=
+  lazymatch type of H with
+  | wbind ?m ?k ?w = Val (?r, ?w') =>
+    let e := fresh "e" in let Hr := fresh "Hr" in
+    apply wbind_inv in H as [(a & w1 & E & H) | (e & E & Hr)];
+    [ | first [ discriminate Hr | subst r | (injection Hr as Hr; try subst) | idtac ] ]
+  end.
